@@ -332,8 +332,8 @@ class Opt:
 def misuse_shards(tier, seed):
     out = []
     for shape in ('named', 'tuple'):
-        for variant in ('A1x', 'A1y', 'A2', 'B1', 'B2', 'B3', 'C1', 'C2', 'C3'):
-            if tier == 'quick' and shape == 'tuple' and variant not in ('C3', 'A2', 'B1'):
+        for variant in ('A1x', 'A1y', 'A2', 'A3', 'B1', 'B2', 'B3', 'C1', 'C2', 'C3'):
+            if tier == 'quick' and shape == 'tuple' and variant not in ('C3', 'A2', 'A3', 'B1'):
                 continue
             out.append({'family': 'misuse', 'item': 'struct', 'shape': shape, 'variant': variant})
     for variant in ('EA1', 'EA2', 'EB'):
@@ -360,6 +360,13 @@ def make_misuse(sh):
             m0 = Member(nm('a'), instrs=[MapInstr(Ch('m0n', ['map', 'owned_into', 'try_map']), ded=Ch('m0d', [None, 'X', 'Z']), member=('n', 'zz'), tag='e')])
             m1 = Member(nm('b'), instrs=[GhostInstr(Ch('g1n', ['ghost', 'ghost_owned']), ded=Ch('g1d', [None, 'X', 'Y', 'Z']), action=Ch('g1a', [None, '__g(@)']), tag='g')])
             return Spec('struct', shape=shape, traits=[t1, tY()], members=[m0, m1], tys=('X', 'Y', 'Z'))
+        if variant == 'A3':
+            # several ghost instructions on one member: each is subject to the default-value rule, whatever stands in front of it
+            t1 = TraitInstr(Ch('t1n', ['map', 'from_owned', 'owned_into']), 'X', tag='t1')
+            m1 = Member(nm('b'), instrs=[GhostInstr(Ch('g1n', ['ghost', 'ghost_owned']), ded=Ch('g1d', ['X', None]), action=Ch('g1a', ['__g(@)', None]), tag='g'),
+                                         GhostInstr(Ch('g2n', ['ghost', 'ghost_ref']), ded='Y', action=Ch('g2a', [None, '__g2(@)']), tag='g2'),
+                                         Opt(yes('g3p'), GhostInstr('ghost', ded='Z', action=Ch('g3a', [None, '__g3(@)']), tag='g3'))])
+            return Spec('struct', shape=shape, traits=[t1, tY()], members=[Member(nm('a')), m1], tys=('X', 'Y', 'Z'))
         if variant == 'B1':
             g = lambda k: ('n', 'g%s' % k) if shape == 'named' else ('i', 5 + k)
             g1 = GhostsInstr(Ch('gs1n', ['ghosts', 'ghosts_owned', 'ghosts_ref']), ded=Ch('gs1d', [None, 'X', 'Z']), data=[GhostData(g(0), '__gx(@)', tag='gx')])
